@@ -244,6 +244,7 @@ func closePhiFacts(ff *FuncFacts, in FactSet) {
 				if _, have := in[e]; !have {
 					in[e] = pol
 					added = true
+					ff.addVia(e, ph.Block())
 				}
 			}
 			pred := ph.Block().Preds[possible]
